@@ -51,9 +51,10 @@ claim("C12",
       "Coq theorems about the one-level classifier (model of createType) and the closure it generates: every result entry is the classification of its position, the result is closed under links and contains every source declaration, "
       "each node is faithful to the go/types type at its position (kind, array length, key/element, basic kind) and its Type() reconstruction is that type with time.Time reported as predefined. "
       "Tied to /repo by walking the real analysis graph from Source and from every Types entry with the go/types type of each position in hand and comparing node by node with the model closure; "
-      "faithfulness / closure / source order are also evaluated in Coq on the observed graph alone. Termination of the real memoised DFS is observed per case (child process, timeout), and modelled by fuel: partial in that respect.",
-      "Trusted: the facts extractor and graph walker; the closure model abstracts the memo table (structural positions instead of type-object identity) - the memoised DFS's termination is not proved, only observed.",
-      "Coq proof (closure soundness/closedness by induction on fuel) + node-by-node graph correspondence", "DESIGN.md §5 C12")
+      "faithfulness / closure / source order are also evaluated in Coq on the observed graph alone. Termination: C12_terminates proves that the worklist of the model never reports unbounded recursion once the fuel exceeds closure_bound (computed from the program: every position belongs to a finite universe and is expanded once), for every program, recursive declarations included; "
+      "the correspondence runs the model with exactly that fuel and the real memoised DFS is observed per case (child process, timeout).",
+      "Trusted: the facts extractor and graph walker; the closure model abstracts the memo table (structural positions instead of type-object identity): termination is proved for the model and observed for the implementation.",
+      "Coq proof (closure soundness/closedness by induction on fuel, termination by a decreasing potential over a finite universe) + node-by-node graph correspondence", "DESIGN.md §5 C12, §8.1")
 
 claim("C09",
       "Coq theorems over all field lists and tags (reflect.StructTag.Get modelled byte by byte for tags without escapes): a field is selected iff encoding/json serialises it and it is not gomacro-ignored; "
@@ -123,9 +124,12 @@ claim("C02",
       "Decided dynamically on every run: a test binary is built from the source package + the real generated wrappers (after goimports); for every analysed type, random values (nil/empty/non-empty containers, zero values, unicode and HTML-sensitive strings, every union member) "
       "are marshalled and unmarshalled with the real encoding/json and compared (deep equality modulo nil/empty), and the bytes are compared with a reflection-driven reference encoder that knows the unions from a registry only. "
       "In Coq the wire format is the shape of the documents of each type (Sem/GoJson.v, computed from the analysis); lemmas state what conformance means at union positions ({Kind: member, Data: member document}, exactly two keys) and struct positions (exact key set); "
-      "every document written by the real encoder is checked by vm_compute to conform to the shape of its type.",
-      "Partial: the round trip itself is observed, not proved (Go values and encoding/json's decoder are not modelled); the Coq part fixes the wire format and validates it against the real encoder. Trusted: the reflection driver (harness/testbin/driver.go.txt) incl. its reference encoder.",
-      "real round trips in a compiled test binary + reference encoder; Coq shape conformance of every real document", "DESIGN.md §5 C02")
+      "every document written by the real encoder is checked by vm_compute to conform to the shape of its type. "
+      "The round trip is a Coq theorem about a codec model (Sem/GoVal.v: encode/decode = Marshal/Unmarshal with the wrappers, directed by the wire shape): C02_round_trip (decode (encode v) = Some v' with v' equal to v modulo nil/empty, all environments, shapes, values, depths), "
+      "C02_encoded_documents_conform, C02_union_value_on_the_wire. Tie: the test binary dumps every value before and after the real round trip; Check_C02 requires the model's encode to write the very document the real encoder wrote and its decode to build the very value the real decoder built.",
+      "Trusted: the reflection driver (harness/testbin/driver.go.txt) incl. its reference encoder and its value dump (the abstraction: pointer = pointee, struct = serialised fields, []byte = base64 text); encoding/json is modelled (validated on every value of every run), not verified. "
+      "Not a value of the model: a non-nil pointer to a nil pointer/slice/map (encoding/json itself does not round-trip it).",
+      "Coq round-trip theorem on a codec model validated against the real encoder/decoder on every value + real round trips in a compiled test binary + reference encoder", "DESIGN.md §5 C02, §8.1")
 
 claim("C15",
       "Coq theorems on the call structure of the generated functions (a function calls the functions of its components unconditionally): a well-founded structure gives termination for every random stream; a type that reaches itself never returns (the open finding, as a theorem). "
